@@ -591,6 +591,18 @@ def _scalarise_tables(node):
     rec(node)
 
 
+def _tuple_index(sl, flds):
+    """the position a constant subscript reads of a packed tuple with the positions `flds` (None: not one)"""
+    if isinstance(sl, ast.UnaryOp) and isinstance(sl.op, ast.USub) and isinstance(sl.operand, ast.Constant) and \
+       isinstance(sl.operand.value, int) and not isinstance(sl.operand.value, bool):
+        i = len(flds) - sl.operand.value
+    elif isinstance(sl, ast.Constant) and isinstance(sl.value, int) and not isinstance(sl.value, bool):
+        i = sl.value if sl.value >= 0 else len(flds) + sl.value
+    else:
+        return None
+    return i if i in flds else None
+
+
 def _scalarise_records(ctx, node):
     """a local record (NamedTuple / dataclass creation, assigned once, perhaps handed on through `x = __rN`) that
     is only ever read field by field is a handful of scalars: REC.field -> REC__field"""
@@ -616,6 +628,9 @@ def _scalarise_records(ctx, node):
                 flds = record_fields(classes[v.func.id], v)
                 if flds:
                     recs[nm] = (sts[0], flds)
+            elif isinstance(v, ast.Tuple) and v.elts and not any(isinstance(x, ast.Starred) for x in v.elts):
+                # a tuple packed once and only read by position is the same thing
+                recs[nm] = (sts[0], dict(enumerate(v.elts)))
     if not recs:
         return
     alias = {nm: nm for nm in recs}
@@ -636,6 +651,9 @@ def _scalarise_records(ctx, node):
                 continue
             if isinstance(p, ast.Attribute) and p.value is n and isinstance(p.ctx, ast.Load) and \
                p.attr in recs[alias[n.id]][1]:
+                continue
+            if isinstance(p, ast.Subscript) and p.value is n and isinstance(p.ctx, ast.Load) and \
+               _tuple_index(p.slice, recs[alias[n.id]][1]) is not None:
                 continue
             bad.add(alias[n.id])
     ok = {nm for nm in alias if alias[nm] not in bad}
@@ -667,11 +685,12 @@ def _scalarise_records(ctx, node):
         return isinstance(v_, ast.Name) and len(asg.get(v_.id, ())) <= 1
 
     def fix(y):
-        if isinstance(y, ast.Attribute) and isinstance(y.value, ast.Name) and y.value.id in ok:
-            v_ = recs[alias[y.value.id]][1][y.attr]
+        if isinstance(y, (ast.Attribute, ast.Subscript)) and isinstance(y.value, ast.Name) and y.value.id in ok:
+            key = y.attr if isinstance(y, ast.Attribute) else _tuple_index(y.slice, recs[alias[y.value.id]][1])
+            v_ = recs[alias[y.value.id]][1][key]
             if direct(v_):
                 return ast.copy_location(ast.Name(id=v_.id, ctx=ast.Load()), y)
-            new = ast.Name(id='%s__%s' % (alias[y.value.id], y.attr), ctx=ast.Load())
+            new = ast.Name(id='%s__%s' % (alias[y.value.id], key), ctx=ast.Load())
             return ast.copy_location(new, y)
         rec(y)
         return y
